@@ -14,7 +14,9 @@ FrameS(t, s)      == [t |-> t, x |-> "-", y |-> "-", z |-> NoBody, s |-> s]
 
 NoFlags == [side |-> "-", didAllocate |-> FALSE, didClaim |-> FALSE, npid |-> "-", didRelease |-> FALSE,
             mb |-> "-", mbid |-> "-", listening |-> FALSE, didClose |-> FALSE]
-DownConn == [up |-> FALSE, closing |-> FALSE, late |-> 0, c2s |-> <<>>, s2c |-> <<>>, f |-> NoFlags, gen |-> 0]
+\* wsclosing: the server has started the WebSocket closing handshake and the client has seen its close frame: nothing more
+\* is exchanged, the TCP connection goes away a moment later (Drop)
+DownConn == [up |-> FALSE, closing |-> FALSE, wsclosing |-> FALSE, late |-> 0, c2s |-> <<>>, s2c |-> <<>>, f |-> NoFlags, gen |-> 0]
 
 NoNameplate == [mb |-> "-", sides |-> [s \in Sides |-> "none"]]
 NoMailbox   == [exists |-> FALSE, sides |-> [s \in Sides |-> "none"], mood |-> [s \in Sides |-> "-"], msgs |-> <<>>]
